@@ -11,6 +11,7 @@ pub mod c06;
 pub mod c07;
 pub mod c08;
 pub mod c09;
+pub mod c11;
 pub mod c12;
 pub mod c13;
 pub mod c16;
@@ -48,6 +49,15 @@ pub fn spec(id: &str) -> Option<Spec> {
             min_evaluations: 100,
             min_nontrivial: 40,
             run: c09::run,
+        },
+        "C11" => Spec {
+            id: "C11",
+            level: "exploration",
+            shards_quick: 8,
+            shards_thorough: 14,
+            min_evaluations: 300,
+            min_nontrivial: 150,
+            run: c11::run,
         },
         "C12" => Spec {
             id: "C12",
